@@ -1735,6 +1735,10 @@ def _resolve_tagged_literal(
             return data_reader(v)
         except SyntaxError as e:
             raise ctx.syntax_error(e.message).with_traceback(e.__traceback__) from None
+        except (TypeError, ValueError) as e:
+            raise ctx.syntax_error(
+                f"Data reader for tag #{s} could not read form: {e}"
+            ) from e
     elif s.ns is None and "." in s.name:
         return _load_record_or_type(ctx, s, v)
     else:
@@ -1813,7 +1817,8 @@ def _read_reader_macro(ctx: ReaderContext) -> LispReaderForm:
         return read_macro(ctx)
     elif begin_ns_name_chars.match(char):
         s = _read_sym(ctx, is_reader_macro_sym=True)
-        assert isinstance(s, sym.Symbol)
+        if not isinstance(s, sym.Symbol):
+            raise ctx.syntax_error(f"Reader macro tags must be symbols, not '{s}'")
         if s.ns is None:
             if s.name == "b":
                 return _read_byte_str(ctx)
